@@ -57,6 +57,8 @@ type Exec struct {
 	callOrd map[string]int
 	callIdxOf map[ssa.Instruction]int // ordinal of call per callee name in source order
 	preLoops map[*ssa.BasicBlock]*loopInfo
+	frameActive bool
+	frameLocs []modLoc
 	nopanic bool
 	nonil   bool
 	hasDefer bool
@@ -319,7 +321,11 @@ func (vc *VC) loadGlobal(h *Heap, g *ssa.Global) string {
 		}
 		vc.decl(n, fmt.Sprintf("(declare-const %s %s)", n, vc.sortOf(et)))
 		if vc.ctx.uniqueAllocGlobals[g] {
-			vc.ctx.usedUnique[n] = true
+			if vc.ctx.errGlobals[g] {
+				vc.ctx.usedUniqueErr[n] = true
+			} else {
+				vc.ctx.usedUnique[n] = true
+			}
 		}
 		return n
 	}
@@ -343,6 +349,19 @@ func (vc *VC) globalFacts() []string {
 	}
 	if len(ns) > 1 {
 		out = append(out, "(assert (distinct "+strings.Join(ns, " ")+"))")
+	}
+	var es []string
+	for n := range vc.ctx.usedUniqueErr {
+		if vc.declSet[n] {
+			es = append(es, n)
+		}
+	}
+	sort.Strings(es)
+	for _, n := range es {
+		out = append(out, fmt.Sprintf("(assert (and (not (= (itag %s) 0)) (> (ipay %s) 1000) (< (ipay %s) alloc0)))", n, n, n))
+	}
+	if len(es) > 1 {
+		out = append(out, "(assert (distinct "+strings.Join(es, " ")+"))")
 	}
 	return out
 }
@@ -621,7 +640,15 @@ func (ex *Exec) instr(in ssa.Instruction) {
 			ex.vals[i] = &Val{P: &Place{kind: 1, base: "(sarr " + x.T + ")", arr: vc.elemsArr(u.Elem()), idx: vc.define("ix", sBV64, fmt.Sprintf("(bvadd (soff %s) %s)", x.T, idx)), typ: u.Elem(), rootT: u.Elem()}}
 		case *types.Pointer:
 			at := u.Elem().Underlying().(*types.Array)
-			ex.panicOblig("index", i.Pos(), isIndexExpr, fmt.Sprintf("(and (bvsle (_ bv0 64) %s) (bvslt %s %s))", idx, idx, bvLit(uint64(at.Len()), 64)))
+			trivial := false
+			if c, isC := i.Index.(*ssa.Const); isC && c.Value != nil {
+				if n, ok := constant.Int64Val(constant.ToInt(c.Value)); ok && n >= 0 && n < at.Len() {
+					trivial = true
+				}
+			}
+			if !trivial {
+				ex.panicOblig("index", i.Pos(), isIndexExpr, fmt.Sprintf("(and (bvsle (_ bv0 64) %s) (bvslt %s %s))", idx, idx, bvLit(uint64(at.Len()), 64)))
+			}
 			if x.P != nil {
 				np := *x.P
 				np.sub = append(append([]subSel{}, x.P.sub...), subSel{isIdx: true, idx: idx})
@@ -1032,7 +1059,9 @@ func (ex *Exec) slice(i *ssa.Slice) {
 		if i.High != nil {
 			hi = ex.to64(i.High)
 		}
-		ex.panicOblig("slice", i.Pos(), isSliceExpr, fmt.Sprintf("(and (bvsle (_ bv0 64) %s) (bvsle %s %s) (bvsle %s %s))", lo, lo, hi, hi, n))
+		if i.Low != nil || i.High != nil {
+			ex.panicOblig("slice", i.Pos(), isSliceExpr, fmt.Sprintf("(and (bvsle (_ bv0 64) %s) (bvsle %s %s) (bvsle %s %s))", lo, lo, hi, hi, n))
+		}
 		if x.P != nil {
 			ex.noteUnsupported("slice of interior array")
 			ex.freshVal(i, "slice")
@@ -1199,6 +1228,7 @@ func (ex *Exec) run() {
 	env0 := ex.specEnv(h0)
 	vc.entryEnv = env0
 	vc.entryHeap = h0
+	ex.initFrame(env0)
 	for _, c := range vc.fc.clauses("requires") {
 		t, err := env0.Bool(c.Expr)
 		if err != nil {
@@ -1364,8 +1394,70 @@ func (ex *Exec) invEnv(b *ssa.BasicBlock, h *Heap, phiVal func(*ssa.Phi) *Val) *
 			env.vars[name] = TV{T: v.T, Ty: phi.Type()}
 		}
 	}
-	// values defined in dominating blocks that carry source names are not
-	// available; invariants speak about phis, parameters and heap only.
+	// local variables that the loop does not modify: resolved through the
+	// DebugRef of their first use inside the loop, provided the SSA value is
+	// defined outside the loop (so it is the same in every iteration).
+	if l := ex.loops[b]; l != nil {
+		done := map[string]bool{}
+		phiNames := ex.phiNames(b)
+		var blocks []*ssa.BasicBlock
+		for bb := range l.body {
+			blocks = append(blocks, bb)
+		}
+		sort.Slice(blocks, func(i, j int) bool { return blocks[i].Index < blocks[j].Index })
+		// then the dominators of the header, closest first, last use first
+		var doms []*ssa.BasicBlock
+		for d := b.Idom(); d != nil; d = d.Idom() {
+			doms = append(doms, d)
+		}
+		scan := func(bb *ssa.BasicBlock, reverse bool) []*ssa.DebugRef {
+			var out []*ssa.DebugRef
+			for _, in := range bb.Instrs {
+				if dr, ok := in.(*ssa.DebugRef); ok {
+					out = append(out, dr)
+				}
+			}
+			if reverse {
+				for i, j := 0, len(out)-1; i < j; i, j = i+1, j-1 {
+					out[i], out[j] = out[j], out[i]
+				}
+			}
+			return out
+		}
+		var refs []*ssa.DebugRef
+		for _, bb := range blocks {
+			refs = append(refs, scan(bb, false)...)
+		}
+		for _, d := range doms {
+			refs = append(refs, scan(d, true)...)
+		}
+		for _, in := range refs {
+			{
+				dr, ok := in, true
+				if !ok || dr.IsAddr {
+					continue
+				}
+				id, ok := dr.Expr.(*ast.Ident)
+				if !ok {
+					continue
+				}
+				if done[id.Name] {
+					continue
+				}
+				if _, isPhi := phiNames[id.Name]; isPhi {
+					continue
+				}
+				if vi, isInstr := dr.X.(ssa.Instruction); isInstr && l.body[vi.Block()] {
+					continue
+				}
+				done[id.Name] = true
+				v := ex.val(dr.X)
+				if v.P == nil && len(v.Tup) == 0 && v.T != "" {
+					env.vars[id.Name] = TV{T: v.T, Ty: dr.X.Type()}
+				}
+			}
+		}
+	}
 	return env
 }
 
@@ -1406,7 +1498,17 @@ func (ex *Exec) loopHead(b *ssa.BasicBlock, l *loopInfo, pidx []int, gs []string
 		}
 		sort.Strings(names)
 		for _, n := range names {
+			if ex.frameActive && ex.pass == 2 {
+				sk := vc.fresh("frame.r", "Int")
+				ex.oblig("inv.init", fmt.Sprintf("loop%d.frame", l.ordinal), "", token.NoPos,
+					fmt.Sprintf("(=> (and %s %s) (= (select %s %s) (select %s %s)))", st.guard, ex.frameCond(n, sk), st.heap.get(n), sk, ex.entry.get(n), sk), []string{ex.prop})
+			}
 			nh.vers[n] = vc.fresh("loop."+sanitize(n), vc.arrSort[n])
+			if ex.frameActive {
+				q := fmt.Sprintf("|r?%d|", vc.nfresh)
+				vc.nfresh++
+				vc.assume(fmt.Sprintf("(forall ((%s Int)) (! (=> %s (= (select %s %s) (select %s %s))) :pattern ((select %s %s))))", q, ex.frameCond(n, q), nh.vers[n], q, ex.entry.get(n), q, nh.vers[n], q))
+			}
 		}
 		a := vc.fresh("alloc", "Int")
 		vc.assume(fmt.Sprintf("(>= %s %s)", a, st.heap.alloc))
@@ -1456,6 +1558,18 @@ func (ex *Exec) backEdge(p, head *ssa.BasicBlock, l *loopInfo, k int) {
 	for i, q := range head.Preds {
 		if q == p {
 			pi = i
+		}
+	}
+	if ex.frameActive && !l.havocAll {
+		names := make([]string, 0, len(l.writes))
+		for n := range l.writes {
+			names = append(names, n)
+		}
+		sort.Strings(names)
+		for _, n := range names {
+			sk := vc.fresh("frame.r", "Int")
+			ex.oblig("inv.pres", fmt.Sprintf("loop%d.frame", l.ordinal), "", token.NoPos,
+				fmt.Sprintf("(=> (and %s %s) (= (select %s %s) (select %s %s)))", eg, ex.frameCond(n, sk), ex.out[p].heap.get(n), sk, ex.entry.get(n), sk), []string{ex.prop})
 		}
 	}
 	env := ex.invEnv(head, ex.out[p].heap, func(phi *ssa.Phi) *Val { return ex.val(phi.Edges[pi]) })
@@ -1651,6 +1765,49 @@ func (vc *VC) modLocs(env *SpecEnv, expr string) (locs []modLoc, everything bool
 		}
 	}
 	return locs, false, nil
+}
+
+// frameCond: "r is a pre-existing location of array n that the contract does not allow to change".
+func (ex *Exec) frameCond(n, r string) string {
+	var ex2 []string
+	for _, l := range ex.frameLocs {
+		if l.arr == n {
+			ex2 = append(ex2, fmt.Sprintf("(not (= %s %s))", r, l.ref))
+		}
+	}
+	return fmt.Sprintf("(and (>= %s 0) (< %s alloc0) %s)", r, r, strings.Join(ex2, " "))
+}
+
+// initFrame evaluates the function's modifies clauses (for this property) once, at entry.
+func (ex *Exec) initFrame(env0 *SpecEnv) {
+	vc := ex.vc
+	ex.frameActive = false
+	ex.frameLocs = nil
+	var cls []*Clause
+	for _, c := range vc.fc.clauses("modifies") {
+		if hasProp(c, ex.prop) || len(c.Props) == 0 {
+			cls = append(cls, c)
+		}
+	}
+	if vc.fc.has("pure") {
+		cls = append(cls, &Clause{Kind: "modifies", Expr: "nothing"})
+	}
+	if len(cls) == 0 {
+		return
+	}
+	ex.frameActive = true
+	for _, c := range cls {
+		locs, everything, err := vc.modLocs(env0, c.Expr)
+		if err != nil {
+			vc.ctx.contractError(vc.fc, c, err)
+			continue
+		}
+		if everything {
+			ex.frameActive = false
+			return
+		}
+		ex.frameLocs = append(ex.frameLocs, locs...)
+	}
 }
 
 func (ex *Exec) frame(c *Clause, env *SpecEnv, pos token.Pos) {
